@@ -161,8 +161,6 @@ Proof. intros z H. unfold wrap_u32. apply Z.mod_small. exact H. Qed.
 Lemma wrap_u16_small : forall z, 0 <= z < 65536 -> wrap_u16 z = z.
 Proof. intros z H. unfold wrap_u16. apply Z.mod_small. exact H. Qed.
 
-Definition frag_size_ok (f : Z) : Prop := 0 < f < 65536.
-Definition payload_ok (p : bytes) : Prop := blen p < two32.
 
 Lemma blen_nonneg : forall p, 0 <= blen p.
 Proof. intros p. unfold blen. lia. Qed.
@@ -217,12 +215,7 @@ End Genuine.
 
 (* ------------------------------------------------------------ reconstruct on genuine buffers *)
 
-Definition genuine (f rid : Z) (ch : list (Z * bytes)) (fr : frag) : Prop :=
-  exists p i, lookup (fr_sn fr) ch = Some p /\ 0 <= i < div_ceil (blen p) f /\
-              fr = mk_data_frag rid (fr_sn fr) p f i.
 
-Definition history_ok (ch : list (Z * bytes)) : Prop :=
-  forall sn p, lookup sn ch = Some p -> payload_ok p.
 
 Lemma sum_nsub_acc : forall l a, fold_left (fun acc fr => acc + fr_nsub fr) l a =
                                  a + fold_left (fun acc fr => acc + fr_nsub fr) l 0.
@@ -354,9 +347,9 @@ Section Reconstruct.
     pose proof (n_bounds f p Hf (Hch _ _ Hlk)). fold n in H0. lia.
   Qed.
 
-  Definition complete : Prop := forall i, 0 <= i < n -> In (gfrag f rid sn p i) buf.
+  Local Notation completeS := (complete f rid buf sn p).
 
-  Lemma complete_iff_length : complete <-> Z.of_nat (length G) = n.
+  Lemma complete_iff_length : completeS <-> Z.of_nat (length G) = n.
   Proof.
     pose proof (n_bounds f p Hf (Hch _ _ Hlk)) as Hn. fold n in Hn.
     split.
@@ -377,7 +370,7 @@ Section Reconstruct.
       destruct (G_elem x Hin) as (j & Hj & Hxj).
       pose proof (gfrag_fields f rid sn p Hf (Hch _ _ Hlk) j Hj) as (_ & _ & Hst' & _).
       rewrite <- Hxj in Hst'. assert (j = i) by lia. subst j.
-      rewrite <- Hxj. unfold G in Hin. apply filter_In in Hin. tauto.
+      change (In (gfrag f rid sn p i) buf). rewrite <- Hxj. unfold G in Hin. apply filter_In in Hin. tauto.
   Qed.
 
   Lemma find_first_sn : forall x, find (has_sn sn) buf = Some x ->
@@ -389,7 +382,7 @@ Section Reconstruct.
     apply (gfrag_expected f rid sn p Hf (Hch _ _ Hlk)). exact Hi.
   Qed.
 
-  Lemma find_start_complete : forall k, complete -> 1 <= k <= n ->
+  Lemma find_start_complete : forall k, completeS -> 1 <= k <= n ->
     exists x, find (is_frag sn k) buf = Some x /\
               fr_data x = slice p ((k - 1) * f) (Z.min (((k - 1) + 1) * f) (blen p)).
   Proof.
@@ -412,7 +405,7 @@ Section Reconstruct.
     apply find_some in E as [Hin Hp]. destruct (buf_elem_start x 0 Hin Hp). lia.
   Qed.
 
-  Lemma collect_complete : complete -> collect buf sn (Z.to_nat (n + 1)) 0 = p.
+  Lemma collect_complete : completeS -> collect buf sn (Z.to_nat (n + 1)) 0 = p.
   Proof.
     intros Hc. pose proof (n_bounds f p Hf (Hch _ _ Hlk)) as Hn. fold n in Hn.
     replace (Z.to_nat (n + 1)) with (S (Z.to_nat n)) by lia.
@@ -427,7 +420,7 @@ Section Reconstruct.
 
   (* the heart of C05: on a buffer of genuine fragments, reconstruct returns the written payload
      when every fragment is present, and nothing otherwise *)
-  Lemma reconstruct_complete : complete -> 1 <= n ->
+  Lemma reconstruct_complete : completeS -> 1 <= n ->
     reconstruct buf sn = Ok (Some p, filter (fun fr => negb (has_sn sn fr)) buf).
   Proof.
     intros Hc Hn1. unfold reconstruct.
@@ -442,7 +435,7 @@ Section Reconstruct.
     rewrite Z.eqb_refl. rewrite collect_complete by exact Hc. rewrite Hf1. reflexivity.
   Qed.
 
-  Lemma reconstruct_incomplete : ~ complete -> reconstruct buf sn = Ok (None, buf).
+  Lemma reconstruct_incomplete : ~ completeS -> reconstruct buf sn = Ok (None, buf).
   Proof.
     intros Hc. unfold reconstruct.
     destruct (find (has_sn sn) buf) as [x0|] eqn:E0; [|reflexivity].
@@ -455,7 +448,7 @@ Section Reconstruct.
     exfalso. apply Hc. apply complete_iff_length. exact E.
   Qed.
 
-  Lemma complete_dec : complete \/ ~ complete.
+  Lemma complete_dec : completeS \/ ~ completeS.
   Proof.
     destruct (Z.eq_dec (Z.of_nat (length G)) n) as [E|E].
     - left. apply complete_iff_length. exact E.
@@ -464,13 +457,13 @@ Section Reconstruct.
 
   (* never a wrong payload *)
   Lemma reconstruct_sound : forall d buf', reconstruct buf sn = Ok (Some d, buf') ->
-    d = p /\ complete /\ buf' = filter (fun fr => negb (has_sn sn fr)) buf.
+    d = p /\ completeS /\ buf' = filter (fun fr => negb (has_sn sn fr)) buf.
   Proof.
     intros d buf' H. destruct complete_dec as [Hc|Hc].
     - assert (1 <= n).
       { unfold reconstruct in H. destruct (find (has_sn sn) buf) as [x0|] eqn:E0; [|discriminate].
         apply (find_first_sn x0 E0). }
-      rewrite (reconstruct_complete Hc H0) in H. inversion H. tauto.
+      rewrite (reconstruct_complete Hc H0) in H. injection H as Hd Hb. split; [symmetry; exact Hd|]. split; [exact Hc|symmetry; exact Hb].
     - rewrite (reconstruct_incomplete Hc) in H. discriminate.
   Qed.
 End Reconstruct.
@@ -486,7 +479,6 @@ Section ProxyLevel.
                     exists i, 0 <= i < div_ceil (blen p) f /\ x = mk_data_frag rid sn p f i.
 
   Let buf := fold_left push_frag l [].
-  Let others := filter (fun x => negb (has_sn sn x)) l.
 
   (* reduce to the genuine-buffer lemmas by forgetting the other sequence numbers:
      reconstruct only looks at fragments with fr_sn = sn *)
@@ -637,13 +629,6 @@ Proof.
     + apply Forall_app. split; [assumption|]. constructor; [assumption|constructor].
 Qed.
 
-(* what the reader holds, relative to the writer's history ch *)
-Record rinv (f : Z) (ch : list (Z * bytes)) (r : rstate) : Prop := mkrinv {
-  ri_nodup : NoDup (r_buf r);
-  ri_genuine : forall x, In x (r_buf r) -> genuine f 1 ch x;
-  ri_changes : Forall (fun c => lookup (fst c) ch = Some (snd c) /\ fst c <= r_highest r) (r_changes r);
-  ri_sorted : StronglySorted Z.lt (map fst (r_changes r))
-}.
 
 Lemma rinv_mono : forall f ch e r, rinv f ch r -> rinv f (ch ++ e) r.
 Proof.
@@ -706,13 +691,6 @@ Proof.
     constructor; cbn [r_set r_buf r_changes r_highest]; assumption.
 Qed.
 
-(* genuine data-carrying submessages of the writer towards reader 1 *)
-Definition wire_genuine (f : Z) (ch : list (Z * bytes)) (w : wire) : Prop :=
-  match w with
-  | WData _ sn p => lookup sn ch = Some p
-  | WFrag fr => genuine f 1 ch fr
-  | WGap _ => True
-  end.
 
 Lemma r_deliver_inv : forall f ch r w, frag_size_ok f -> history_ok ch ->
   rinv f ch r -> wire_genuine f ch w -> exists r', r_deliver r w = Ok r' /\ rinv f ch r'.
@@ -1262,12 +1240,6 @@ Section Lost.
   Qed.
 End Lost.
 
-Definition lost_op (sn j : Z) (o : op) : Prop :=
-  match o with
-  | ODeliver sn' idx _ => ~ (sn' = sn /\ idx = j)
-  | OForged _ _ _ _ => False
-  | _ => True
-  end.
 
 Lemma respond_inv2 : forall s x s' o, respond s x = Ok (s', o) ->
   exists w' ws, x = Ok (w', ws) /\ r_deliver_all (s_r s) ws = Ok (s_r s') /\ s_w s' = w'.
@@ -1628,13 +1600,13 @@ Section Complete.
              rewrite Hb1 in Hc'. exact Hc'.
           -- intros i Hi. destruct (Hcov i Hi) as [H|[H|H]].
              ++ left. apply Hkeep; [exact H|apply mk_data_frag_sn].
-             ++ exfalso. inversion H. apply Es. rewrite <- H1. apply mk_data_frag_sn.
+             ++ exfalso. apply Es. replace fr with (mk_data_frag 1 sn p f i) by congruence. apply mk_data_frag_sn.
              ++ right. exact H.
         * right. cbn [r_set r_buf r_first r_highest available_changes_max]. rewrite Hb1.
           split; [exact Hexp|]. split; [exact Hinc|].
           intros i Hi. destruct (Hcov i Hi) as [H|[H|H]].
           -- left. exact H.
-          -- exfalso. inversion H. apply Es. rewrite <- H1. apply mk_data_frag_sn.
+          -- exfalso. apply Es. replace fr with (mk_data_frag 1 sn p f i) by congruence. apply mk_data_frag_sn.
           -- right. exact H.
     - inversion E; subst r'. right. split; [exact Hexp|]. split; [exact Hinc|].
       intros i Hi. destruct (Hcov i Hi) as [H|[H|H]]; [left; exact H|discriminate|right; exact H].
@@ -1669,3 +1641,146 @@ Section Complete.
     exfalso. apply Hinc'. intros i Hi. destruct (Hcov i Hi) as [H|[]]. exact H.
   Qed.
 End Complete.
+
+(* ------------------------------------------------------------ what the writer emits *)
+
+Lemma slice_length : forall (p : bytes) s e, 0 <= s <= e -> e <= blen p -> blen (slice p s e) = e - s.
+Proof.
+  intros p s e Hs He. unfold slice, blen in *. rewrite firstn_length, skipn_length. lia.
+Qed.
+
+Theorem send_change_spec : forall rid f sn p, frag_size_ok f -> payload_ok p ->
+  (blen p <= f -> send_change rid f sn p = Ok [WData rid sn p]) /\
+  (f < blen p ->
+     exists frs, send_change rid f sn p = Ok (map WFrag frs) /\
+       Z.of_nat (length frs) = div_ceil (blen p) f /\
+       concat (map fr_data frs) = p /\
+       forall k fr, nth_error frs k = Some fr ->
+         fr_rid fr = rid /\ fr_sn fr = sn /\ fr_start fr = Z.of_nat k + 1 /\ fr_nsub fr = 1 /\
+         fr_fsize fr = f /\ fr_dsize fr = blen p /\
+         blen (fr_data fr) = Z.min f (blen p - Z.of_nat k * f)).
+Proof.
+  intros rid f sn p Hf Hp. pose proof (blen_nonneg p) as Hl. destruct Hf as [Hf1 Hf2].
+  unfold send_change. destruct (Z.eqb_spec f 0); [lia|].
+  pose proof (div_ceil_gt1 (blen p) f Hl Hf1) as Hgt. split.
+  - intros Hle. destruct (Z.ltb_spec 1 (div_ceil (blen p) f)); [lia|reflexivity].
+  - intros Hlt. destruct (Z.ltb_spec 1 (div_ceil (blen p) f)); [|lia].
+    exists (map (fun i => mk_data_frag rid sn p f i) (zseq (div_ceil (blen p) f))).
+    split; [rewrite map_map; reflexivity|].
+    pose proof (n_bounds f p (conj Hf1 Hf2) Hp) as Hn.
+    split; [unfold zseq; rewrite !map_length, seq_length; lia|]. split.
+    + rewrite map_map. cbn [mk_data_frag fr_data]. apply concat_frags. exact Hf1.
+    + intros k fr Hk. unfold zseq in Hk. rewrite map_map in Hk.
+      assert (Hklt : (k < Z.to_nat (div_ceil (blen p) f))%nat).
+      { assert (Hx : nth_error (map (fun x => mk_data_frag rid sn p f (Z.of_nat x)) (seq 0 (Z.to_nat (div_ceil (blen p) f)))) k <> None) by congruence.
+        apply nth_error_Some in Hx. rewrite map_length, seq_length in Hx. exact Hx. }
+      rewrite nth_error_map in Hk. rewrite nth_error_nth' with (d := 0%nat) in Hk by (rewrite seq_length; exact Hklt).
+      rewrite seq_nth in Hk by exact Hklt. cbn [option_map Nat.add] in Hk. inversion Hk; subst fr.
+      pose proof (gfrag_fields f rid sn p (conj Hf1 Hf2) Hp (Z.of_nat k) ltac:(lia)) as (A & B & C & D & E & F & G).
+      unfold gfrag in *. repeat split; try assumption.
+      rewrite G.
+      assert (Hkf : Z.of_nat k * f < blen p).
+      { destruct (div_ceil_bounds (blen p) f Hl Hf1) as [Hb|[Hb1 Hb2]]; [|lia].
+        assert (Z.of_nat k * f <= (div_ceil (blen p) f - 1) * f) by (apply Z.mul_le_mono_nonneg_r; lia). lia. }
+      rewrite slice_length; lia.
+Qed.
+
+(* expected fragment count on the reader side = ceil(len / f), the least n with n * f >= len *)
+Theorem expected_count_is_ceil : forall rid f sn p i, frag_size_ok f -> payload_ok p ->
+  0 <= i < div_ceil (blen p) f ->
+  total_fragments_expected (mk_data_frag rid sn p f i) = Ok (div_ceil (blen p) f) /\
+  blen p <= div_ceil (blen p) f * f /\ (div_ceil (blen p) f - 1) * f < blen p.
+Proof.
+  intros rid f sn p i Hf Hp Hi. split; [apply (gfrag_expected f rid sn p Hf Hp i Hi)|].
+  destruct Hf as [Hf1 Hf2]. pose proof (blen_nonneg p).
+  destruct (div_ceil_bounds (blen p) f ltac:(lia) Hf1) as [Hb|[Hb1 Hb2]]; lia.
+Qed.
+
+(* ------------------------------------------------------------ witnesses (the failing families are inhabited) *)
+
+Definition p21 : bytes := [1;2;3;4;5;6;7;8;9;10;11;12;13;14;15;16;17;18;19;20;21].
+Definition p29 : bytes := p21 ++ [22;23;24;25;26;27;28;29].
+
+(* fragment 2 of 3 lost; heartbeat; the reader's NACK_FRAG asks for {2} with count 0; the writer answers nothing *)
+Lemma witness_count_zero :
+  exists s ack, run (s_init true 1 8) [OWrite p21; ODeliver 1 0 1; ODeliver 1 2 1; OHb 1 1 1 false; ONackFrag] =
+    Ok (s, [BSent [WFrag (mk_data_frag 1 1 p21 8 0); WFrag (mk_data_frag 1 1 p21 8 1); WFrag (mk_data_frag 1 1 p21 8 2)];
+            BCount 0; BCount 0; BReply (Some (ack, Some (mkNf 1 2 [2] 0))); BResp [] 0]) /\
+    r_changes (s_r s) = [].
+Proof. eexists. eexists. vm_compute. split; reflexivity. Qed.
+
+(* a NACK_FRAG that passes the filter and asks for fragment 2 is answered with fragment 3, twice *)
+Lemma witness_off_by_one :
+  exists w', w_on_nack_frag (mkW 8 true 1 [(1, p21)] 0 0) 1 1 2 [2] =
+    Ok (w', [WFrag (mk_data_frag 1 1 p21 8 2); WFrag (mk_data_frag 1 1 p21 8 2)]) /\
+    fr_start (mk_data_frag 1 1 p21 8 2) = 3.
+Proof. eexists. vm_compute. split; reflexivity. Qed.
+
+Lemma witness_fragsize_zero :
+  run (s_init true 1 8) [OForeign (mkfrag 1 1 1 1 0 21 [1; 2])] = Panic 28.
+Proof. vm_compute. reflexivity. Qed.
+
+(* 300 fragments, only the first received: building the NACK_FRAG indexes the 8-word bitmap at 9 *)
+Lemma witness_bitmap_overflow :
+  run (s_init true 1 8) [OWrite (repeat 7 2400); ODeliver 1 0 1; OHb 1 1 1 false] = Panic 123.
+Proof. vm_compute. reflexivity. Qed.
+
+(* two readers of one participant: fragments 1,2 addressed to R1 and 1,2 addressed to R2 make the
+   count 4 = expected 4; the reader delivers the first 16 of 29 bytes as sample 1 *)
+Lemma witness_mixed_readerid :
+  exists s obs, run (s_init true 2 8) [OWrite p29; ODeliver 1 0 1; ODeliver 1 1 1; ODeliver 1 0 2; ODeliver 1 1 2] =
+    Ok (s, obs) /\ r_changes (s_r s) = [(1, firstn 16 p29)] /\ firstn 16 p29 <> p29.
+Proof. eexists. eexists. vm_compute. split; [reflexivity|]. split; [reflexivity|discriminate]. Qed.
+
+(* non-vacuity of the positive theorems: a concrete interleaved, duplicated, reordered schedule *)
+Lemma example_reordered :
+  exists s obs, run (s_init true 1 8)
+    [OWrite p21; OWrite p29; ODeliver 2 1 1; ODeliver 1 2 1; ODeliver 1 0 1; ODeliver 1 2 1; ODeliver 2 0 1;
+     ODeliver 1 1 1; ODeliver 2 3 1; ODeliver 2 1 1; ODeliver 2 0 1; ODeliver 2 2 1] = Ok (s, obs) /\
+    r_changes (s_r s) = [(1, p21); (2, p29)].
+Proof. eexists. eexists. vm_compute. split; reflexivity. Qed.
+
+(* ------------------------------------------------------------ statements in the argument order of Props/C05.v *)
+
+Lemma C05_reassemble_any_order_stmt :
+  forall f rid sn (p : bytes) (l : list frag),
+    0 < f < 65536 -> blen p < two32 -> 1 <= div_ceil (blen p) f ->
+    (forall x, In x l -> fr_sn x = sn -> exists i, 0 <= i < div_ceil (blen p) f /\ x = mk_data_frag rid sn p f i) ->
+    (forall i, 0 <= i < div_ceil (blen p) f -> In (mk_data_frag rid sn p f i) l) ->
+    reconstruct (fold_left push_frag l []) sn =
+      Ok (Some p, filter (fun x => negb (has_sn sn x)) (fold_left push_frag l [])).
+Proof. intros f rid sn p l Hf Hp Hn Hl Hall. exact (reassemble_any_order f rid sn p l Hf Hp Hl Hn Hall). Qed.
+
+Lemma C05_incomplete_stmt :
+  forall f rid sn (p : bytes) (l : list frag),
+    0 < f < 65536 -> blen p < two32 ->
+    (forall x, In x l -> fr_sn x = sn -> exists i, 0 <= i < div_ceil (blen p) f /\ x = mk_data_frag rid sn p f i) ->
+    ~ (forall i, 0 <= i < div_ceil (blen p) f -> In (mk_data_frag rid sn p f i) l) ->
+    reconstruct (fold_left push_frag l []) sn = Ok (None, fold_left push_frag l []).
+Proof. intros f rid sn p l Hf Hp Hl Hn. exact (reassemble_incomplete f rid sn p l Hf Hp Hl Hn). Qed.
+
+Lemma C05_never_wrong_stmt :
+  forall f rid sn (p : bytes) (l : list frag) d b',
+    0 < f < 65536 -> blen p < two32 ->
+    (forall x, In x l -> fr_sn x = sn -> exists i, 0 <= i < div_ceil (blen p) f /\ x = mk_data_frag rid sn p f i) ->
+    reconstruct (fold_left push_frag l []) sn = Ok (Some d, b') -> d = p.
+Proof. intros f rid sn p l d b' Hf Hp Hl H. exact (reassemble_never_wrong f rid sn p l Hf Hp Hl d b' H). Qed.
+
+Lemma C05_complete_set_stmt :
+  forall f ch sn p r ws,
+    0 < f < 65536 -> history_ok ch -> lookup sn ch = Some p ->
+    rinv f ch r -> r_rel r = true -> available_changes_max r + 1 = sn ->
+    ~ complete f 1 (r_buf r) sn p ->
+    Forall (wire_genuine f ch) ws ->
+    (forall i, 0 <= i < div_ceil (blen p) f -> In (WFrag (mk_data_frag 1 sn p f i)) ws) ->
+    exists r', r_deliver_all r ws = Ok r' /\ In (sn, p) (r_changes r').
+Proof.
+  intros f ch sn p r ws Hf Hch Hlk Hr Hrel Hexp Hinc Hg Hall.
+  exact (complete_set_is_delivered f ch sn p Hf Hch Hlk r ws Hr Hrel Hexp Hinc Hg Hall).
+Qed.
+
+Lemma example_reassemble :
+  reconstruct (fold_left push_frag
+     [mk_data_frag 1 1 p21 8 2; mk_data_frag 1 2 p29 8 0; mk_data_frag 1 1 p21 8 0; mk_data_frag 1 1 p21 8 2;
+      mk_data_frag 1 1 p21 8 1] []) 1 = Ok (Some p21, [mk_data_frag 1 2 p29 8 0]).
+Proof. vm_compute. reflexivity. Qed.
